@@ -38,8 +38,17 @@ theorem Tables_side_conditions_real :
 /-- the environment the driver runs reads the generated character table, whatever the extensions and converter -/
 theorem Tables_realEnv_cs (rext rconv : Nat) : (realEnv rext rconv).cs = realCharSpec := rfl
 
-/-- … folds with the generated unicase table … -/
-theorem Tables_realEnv_fold (rext rconv : Nat) : (realEnv rext rconv).fold = realFold := rfl
+/-- … folds with the generated unicase table, i.e. by lookup in an association list with pairwise different keys … -/
+theorem Tables_realEnv_fold (rext rconv : Nat) :
+    (realEnv rext rconv).fold = realFold ∧
+    realEnv rext rconv = envWithFoldTable (realEnv rext rconv) realFoldAssoc ∧ (realFoldAssoc.map (·.1)).Nodup :=
+  ⟨rfl, C18_real_fold_is_table_lookup_real (realEnv rext rconv), tbl_fold_nodup⟩
+
+/-- the class bits the model computes for a character (binary search, fuel 64) are the bits of the one range of the
+    generated list that contains it: the list covers every scalar value, its ranges are disjoint -/
+theorem Tables_classBits_exact (c : Char) :
+    ∃ r ∈ Gen.charRangesList, r.1 ≤ c.toNat ∧ c.toNat ≤ r.2.1 ∧ classBits c = r.2.2 ∧
+      ∀ s ∈ Gen.charRangesList, s.1 ≤ c.toNat → c.toNat ≤ s.2.1 → s = r := tsr_classBits_exact c
 
 /-- … and, with the bundled converter (`conv = 1`), finds units in the generated key table, i.e. through a unit
     index with pairwise different keys -/
